@@ -16,19 +16,31 @@ import (
 // drawn moments; auto accept is off. Hub 0 sees hub 1 only in some scenarios.
 func genC01Hub(t *rapid.T) Scenario {
 	sc := Scenario{N: 2, ZeroHigher: rapid.Bool().Draw(t, "zeroHigher")}
+	// the knocking peer may run with auto accept on (announces register=true)
+	sc.AutoAccept = []bool{false, rapid.Bool().Draw(t, "peerAutoAccept")}
 	w := func() int { return rapid.SampledFrom([]int{0, 0, 30, 200, 600, 1200, 1800}).Draw(t, "wait") }
 	knock := []HubOp{{K: "register", X: 1, Y: 0}, {K: "appear", X: 1, Y: 0}}
 	knockFirst := rapid.Bool().Draw(t, "knockFirst")
 	if knockFirst {
 		sc.Ops = append(sc.Ops, knock[0], HubOp{K: "appear", X: 1, Y: 0, WaitMs: w()})
 	}
-	if rapid.IntRange(0, 2).Draw(t, "zeroSeesOne") == 0 {
+	if rapid.IntRange(0, 1).Draw(t, "zeroSeesOne") == 0 {
 		sc.Ops = append(sc.Ops, HubOp{K: "appear", X: 0, Y: 1})
 	}
-	n := rapid.IntRange(1, 6).Draw(t, "nUserOps")
-	for i := 0; i < n; i++ {
-		k := rapid.SampledFrom([]string{"register", "cancel", "unregister", "cancel", "register", "wait"}).Draw(t, "userOp")
-		sc.Ops = append(sc.Ops, HubOp{K: k, X: 0, Y: 1, WaitMs: w()})
+	// what the user of hub 0 does: templates that end with trust revoked, or a random sequence
+	templates := [][]string{
+		{"register", "unregister"}, {"register", "wait", "unregister"}, {"register", "cancel"},
+		{"register", "unregister", "register", "unregister"}, {"cancel"}, {"unregister"}, nil,
+	}
+	user := rapid.SampledFrom(templates).Draw(t, "userTemplate")
+	if user == nil {
+		n := rapid.IntRange(1, 6).Draw(t, "nUserOps")
+		for i := 0; i < n; i++ {
+			user = append(user, rapid.SampledFrom([]string{"register", "cancel", "unregister", "cancel", "register", "wait"}).Draw(t, "userOp"))
+		}
+	}
+	for _, k := range user {
+		sc.Ops = append(sc.Ops, HubOp{K: k, X: 0, Y: 1, WaitMs: w(), Spell: rapid.SampledFrom([]int{0, 0, 0, 1, 2, 3}).Draw(t, "spell")})
 	}
 	if !knockFirst {
 		sc.Ops = append(sc.Ops, knock[0], HubOp{K: "appear", X: 1, Y: 0, WaitMs: w()})
